@@ -438,6 +438,77 @@ def normalise_field_renames(facts):
     return ren
 
 
+def _normalise_cached_fields(P):
+    """A new field of a pinned struct that only caches a field of the (immutable) statement - written nowhere but in the constructions of
+    the struct, and there with a value whose every source is the statement field `m` (or None) - is read by the rules as `m`: every place
+    that mentions it is renamed.  `row_limit: Option<usize> = statement.limit` looked up once in `new` is still the statement's LIMIT.
+    Returns {(struct, new field): m}.  Nothing applies on the pinned tree (no new fields)."""
+    from . import flow as F
+    try:
+        with open(os.path.join(os.path.dirname(os.path.dirname(os.path.abspath(__file__))), "tables", "pinned_fns.json")) as fh:
+            pinned = json.load(fh).get("fields", {})
+    except Exception:
+        return {}
+    out = {}
+    for akey, a in P.adts.items():
+        pf = pinned.get(akey)
+        if not pf or len(a["variants"]) != 1 or akey.startswith("bin/"):
+            continue
+        old = set(n for n, _ in pf)
+        for fld in a["variants"][0]["fields"]:
+            n = fld["name"]
+            if n in old or not re.match(r"^(core::option::Option<)?(usize|bool|u64|i64)>?$", fld["ty"]):
+                continue
+            srcs, ok, built = set(), True, 0
+            for f in P.fns.values():
+                if f.target != "lib":
+                    continue
+                for i, st in f.stmts():
+                    if st["k"] != "assign":
+                        continue
+                    # any other write of the field
+                    if any(isinstance(e, dict) and e.get("n") == n and e.get("adt") == a["key"] for e in st["pl"]["p"]):
+                        ok = False
+                    rv = st["rv"]
+                    if rv["k"] == "ref" and rv.get("bk") in ("mut", "Mut") and \
+                            any(isinstance(e, dict) and e.get("n") == n and e.get("adt") == a["key"] for e in rv["pl"]["p"]):
+                        ok = False
+                    if rv["k"] == "aggr" and rv.get("adt") == a["key"] and n in (rv.get("fields") or []):
+                        built += 1
+                        op = rv["ops"][rv["fields"].index(n)]
+                        for o in F.origins(f, op, depth=14):
+                            if o.kind in ("place", "arg") and o.place is not None and place_fields(o.place) and \
+                                    (o.place["p"][-1].get("adt") or "").startswith("sqlgrep::model::"):
+                                srcs.add((place_fields(o.place)[-1], o.place["p"][-1].get("ty")))
+                            elif o.kind == "aggr" or (o.kind == "call" and F.TRANSPARENT.search(short(o.call.name))):
+                                continue
+                            elif o.kind == "const" and fld["ty"].startswith("core::option::Option"):
+                                continue
+                            else:
+                                ok = False
+            if ok and built and len(srcs) == 1 and list(srcs)[0][1] == fld["ty"]:
+                out[(a["key"], n)] = list(srcs)[0][0]
+    if not out:
+        return {}
+
+    def walk(x):
+        if isinstance(x, dict):
+            adt = x.get("adt")
+            if adt and isinstance(x.get("n"), str) and (adt, x["n"]) in out:
+                x["n"] = out[(adt, x["n"])]
+            for v in x.values():
+                if isinstance(v, (dict, list)):
+                    walk(v)
+        elif isinstance(x, list):
+            for v in x:
+                if isinstance(v, (dict, list)):
+                    walk(v)
+    for f in P.fns.values():
+        walk(f.raw.get("blocks") or f.raw)
+        f.__dict__.pop("_stmts_cache", None)
+    return out
+
+
 class Prog:
     def __init__(self, facts):
         self.renames = normalise_renames(facts)
@@ -479,6 +550,7 @@ class Prog:
                     self._trait_impl_methods[(im["trait"], m["name"])].append(k)
         self._cg = None
         self._fnptr = None
+        self.cached_fields = _normalise_cached_fields(self)
 
     # ------------------------------------------------------------------
     def fnptr_targets(self):
